@@ -237,7 +237,37 @@ def oracle(case, obs):
         if o["r"] == forest.RAISED and prev is not None and st["do"] in ("add",):
             if o["heap"] != prev:
                 return {"step": idx, "forbidden_operation_changed_the_forest": st}
+        # a LEGAL move must happen: a graft / force-add of a rooted node under a rooted node that is not in its own subtree
+        # (the hypothesis `legal` of C12_history, stated here on the snapshot before the operation) is not refused
+        if o["r"] == forest.RAISED and prev is not None and st["do"] in ("graft", "force"):
+            sc_id, rv_id = (st["scion"], st["recv"]) if st["do"] == "graft" else (st["child"], st["parent"])
+            sc, rv = find_node(prev, sc_id), find_node(prev, rv_id)
+            if sc is not None and rv is not None and sc["root"] is not None and rv["root"] is not None:
+                below = set(all_ids({"comps": [sc]}))
+                same_root_as_scion_root = sc.get("isroot") and rv["root"] == sc["id"]
+                if rv_id not in below and not same_root_as_scion_root:
+                    # names stay distinct in these forests, so there is no clash at the receiver either
+                    clash = sc["name"] in [k["name"] for k in rv["k"]] if not sc.get("isroot") else \
+                        any(k["name"] in [x["name"] for x in rv["k"]] for k in sc["k"])
+                    if not clash:
+                        return {"step": idx, "legal_move_was_refused": st, "scion": sc["name"], "receiver": rv["name"]}
         prev = o["heap"]
+    return None
+
+
+def find_node(heap, nid):
+    def walk(n):
+        if n["id"] == nid:
+            return n
+        for c in n["k"]:
+            x = walk(c)
+            if x:
+                return x
+        return None
+    for c in heap["comps"]:
+        x = walk(c)
+        if x:
+            return x
     return None
 
 
